@@ -642,6 +642,11 @@ func (w *c09world) durability(op []int64, res []int64, pre, post *c09snap, fired
 	if k < 1 || k > 6 {
 		return
 	}
+	if k == 6 && len(op) > 4 && op[4] == 0 {
+		// PullTract with an empty source list returns NoError without making a single disk call: it neither
+		// syncs nor changes anything, so it says nothing about durability
+		return
+	}
 	t := op[1]
 	if ok {
 		if f, pd, served := post.cur(t); served {
@@ -1553,7 +1558,12 @@ func (w *c09world) faultMacro(r *vw.Rng) {
 		ck := r.PickInt(0, 0, 1)
 		w.opSetVersion(t, cur+1, ck)
 	case kind < 6 && have:
-		w.opWrite(t, cur, c09data(r, false), int64(r.Intn(8)))
+		wd := c09data(r, false)
+		woff := int64(r.Intn(8))
+		if len(wd) == 0 {
+			woff = 0 // a zero-length write beyond EOF is C08's F19 (MemDisk pads, ChecksumFile no longer does): not in this alphabet
+		}
+		w.opWrite(t, cur, wd, woff)
 	case kind < 7:
 		if _, _, ok := w.snap.cur(t); ok && r.Chance(2, 3) {
 			w.nextFault = -1
